@@ -33,7 +33,7 @@ theorem add_half_le_natCast (n i : Nat) : (i : Rat) + 1 / 2 ≤ (n : Rat) ↔ i 
 /-! ### cells of a raster -/
 
 /-- the cell `(i, j)` of a grid (`none` outside it) -/
-def cell (g : Grid) (i j : Nat) : Option Int := (g[i]?).bind (fun row => row[j]?)
+def cell (g : Grid) (i j : Nat) : Option Rat := (g[i]?).bind (fun row => row[j]?)
 
 theorem cell_burn (g : Grid) (b : IBox) (i j : Nat) :
     cell (burn g b) i j = (cell g i j).map (fun old => if covered b i j then b.val else old) := by
@@ -52,12 +52,12 @@ theorem cell_foldl_burn (g : Grid) (boxes : List IBox) (i j : Nat) :
     simp only [List.foldl_cons, ih, cell_burn]
     cases cell g i j <;> simp
 
-theorem cell_replicate (nx ny : Nat) (fill : Int) (i j : Nat) (hi : i < nx) (hj : j < ny) :
+theorem cell_replicate (nx ny : Nat) (fill : Rat) (i j : Nat) (hi : i < nx) (hj : j < ny) :
     cell (List.replicate nx (List.replicate ny fill)) i j = some fill := by
   simp [cell, hi, hj]
 
 /-- folding "overwrite when covered" = the value of the last covering box, else the start value -/
-theorem foldl_overwrite (boxes : List IBox) (i j : Nat) (v0 : Int) :
+theorem foldl_overwrite (boxes : List IBox) (i j : Nat) (v0 : Rat) :
     boxes.foldl (fun v b => if covered b i j then b.val else v) v0 =
       match boxes.reverse.find? (fun b => covered b i j) with
       | some b => b.val
@@ -79,7 +79,7 @@ theorem burn_shape (g : Grid) (b : IBox) (nx ny : Nat) (h1 : g.length = nx) (h2 
   obtain ⟨i, hi, rfl⟩ := hrow
   simp [h2 _ (List.getElem_mem hi)]
 
-theorem rasterBoxes_shape (nx ny : Nat) (boxes : List IBox) (fill : Int) :
+theorem rasterBoxes_shape (nx ny : Nat) (boxes : List IBox) (fill : Rat) :
     (rasterBoxes nx ny boxes fill).length = nx ∧ ∀ row ∈ rasterBoxes nx ny boxes fill, row.length = ny := by
   unfold rasterBoxes
   have h0 : (List.replicate nx (List.replicate ny fill)).length = nx ∧
@@ -93,6 +93,154 @@ theorem rasterBoxes_shape (nx ny : Nat) (boxes : List IBox) (fill : Int) :
   | cons b bs ih =>
     simp only [List.foldl_cons]
     exact ih _ (burn_shape g b nx ny h0.1 h0.2)
+
+
+/-! ### masks: the general rasteriser -/
+
+/-- a grid of `nx` rows of `ny` cells -/
+def Shaped (g : Grid) (nx ny : Nat) : Prop := g.length = nx ∧ ∀ row ∈ g, row.length = ny
+
+theorem burn_eq_burnMask (g : Grid) (b : IBox) : burn g b = burnMask (covered b) b.val g := rfl
+
+theorem cell_burnMask (g : Grid) (m : Mask) (v : Rat) (i j : Nat) :
+    cell (burnMask m v g) i j = (cell g i j).map (fun old => if m i j then v else old) := by
+  simp only [cell, burnMask, List.getElem?_mapIdx]
+  cases g[i]? with
+  | none => rfl
+  | some row =>
+    simp only [Option.map_some, Option.bind_some, List.getElem?_mapIdx]
+
+theorem cell_foldl_burnMask (g : Grid) (shapes : List (Mask × Rat)) (i j : Nat) :
+    cell (shapes.foldl (fun g p => burnMask p.1 p.2 g) g) i j =
+      (cell g i j).map (fun v0 => shapes.foldl (fun v p => if p.1 i j then p.2 else v) v0) := by
+  induction shapes generalizing g with
+  | nil => simp
+  | cons b bs ih =>
+    simp only [List.foldl_cons, ih, cell_burnMask]
+    cases cell g i j <;> simp
+
+theorem foldl_overwrite_mask (shapes : List (Mask × Rat)) (i j : Nat) (v0 : Rat) :
+    shapes.foldl (fun v p => if p.1 i j then p.2 else v) v0 =
+      match shapes.reverse.find? (fun p => p.1 i j) with
+      | some p => p.2
+      | none => v0 := by
+  induction shapes generalizing v0 with
+  | nil => rfl
+  | cons b bs ih =>
+    simp only [List.foldl_cons, ih, List.reverse_cons, List.find?_append]
+    cases bs.reverse.find? (fun p => p.1 i j) with
+    | some b' => simp
+    | none =>
+      by_cases hc : b.1 i j = true <;> simp [hc]
+
+theorem burnMask_shaped (g : Grid) (m : Mask) (v : Rat) (nx ny : Nat) (h : Shaped g nx ny) :
+    Shaped (burnMask m v g) nx ny := by
+  refine ⟨by simp [burnMask, h.1], ?_⟩
+  intro row hrow
+  simp only [burnMask, List.mem_mapIdx] at hrow
+  obtain ⟨i, hi, rfl⟩ := hrow
+  simp [h.2 _ (List.getElem_mem hi)]
+
+theorem replicate_shaped (nx ny : Nat) (fill : Rat) : Shaped (List.replicate nx (List.replicate ny fill)) nx ny := by
+  refine ⟨by simp, ?_⟩
+  intro row hrow
+  rw [List.eq_of_mem_replicate hrow]; simp
+
+theorem foldl_burnMask_shaped (shapes : List (Mask × Rat)) (g : Grid) (nx ny : Nat) (h : Shaped g nx ny) :
+    Shaped (shapes.foldl (fun g p => burnMask p.1 p.2 g) g) nx ny := by
+  induction shapes generalizing g with
+  | nil => simpa using h
+  | cons b bs ih =>
+    simp only [List.foldl_cons]
+    exact ih _ (burnMask_shaped g b.1 b.2 nx ny h)
+
+theorem rasterMasks_shaped (nx ny : Nat) (shapes : List (Mask × Rat)) (fill : Rat) :
+    Shaped (rasterMasks nx ny shapes fill) nx ny :=
+  foldl_burnMask_shaped shapes _ nx ny (replicate_shaped nx ny fill)
+
+/-- masks that agree on the cells of the raster burn the same raster -/
+theorem burnMask_congr (g : Grid) (m m' : Mask) (v : Rat) (nx ny : Nat) (hg : Shaped g nx ny)
+    (h : ∀ i j, i < nx → j < ny → m i j = m' i j) : burnMask m v g = burnMask m' v g := by
+  apply List.ext_getElem?
+  intro i
+  simp only [burnMask, List.getElem?_mapIdx]
+  cases hgi : g[i]? with
+  | none => rfl
+  | some row =>
+    simp only [Option.map_some, Option.some.injEq]
+    have hi : i < g.length := by
+      rcases Nat.lt_or_ge i g.length with h1 | h1
+      · exact h1
+      · rw [List.getElem?_eq_none h1] at hgi; cases hgi
+    have hrow : row ∈ g := List.mem_of_getElem? hgi
+    apply List.ext_getElem?
+    intro j
+    simp only [List.getElem?_mapIdx]
+    cases hrj : row[j]? with
+    | none => rfl
+    | some old =>
+      have hj : j < row.length := by
+        rcases Nat.lt_or_ge j row.length with h1 | h1
+        · exact h1
+        · rw [List.getElem?_eq_none h1] at hrj; cases hrj
+      simp only [Option.map_some, Option.some.injEq]
+      rw [h i j (hg.1 ▸ hi) (hg.2 row hrow ▸ hj)]
+
+theorem cell_rasterMasks (nx ny : Nat) (shapes : List (Mask × Rat)) (fill : Rat) (i j : Nat)
+    (hi : i < nx) (hj : j < ny) :
+    cell (rasterMasks nx ny shapes fill) i j =
+      some (match shapes.reverse.find? (fun p => p.1 i j) with
+            | some p => p.2
+            | none => fill) := by
+  simp only [rasterMasks, cell_foldl_burnMask, cell_replicate nx ny fill i j hi hj, Option.map_some,
+    foldl_overwrite_mask]
+
+/-- the image of a box-like geometry is the ring shapely's `box` makes of its index-space box -/
+theorem image_toGeom (t : Template) (g : RGeom) (v : Rat) :
+    image t g.toGeom = .poly [shapelyBoxRing (toIBox t g v)] := by
+  cases g <;> rfl
+
+
+/-! ### contracts of the rasteriser (hypotheses of the general theorems; monitored on rasterio every run) -/
+
+/-- centre of the cell `(i, j)` -/
+def centre (i j : Nat) : IPt := ((i : Rat) + 1 / 2, (j : Rat) + 1 / 2)
+
+/-- an integer-cornered box (as shapely's `box` ring) burns exactly the cells whose centre it
+    contains, with or without `all_touched` -/
+def BoxRule (B : Burner) : Prop :=
+  ∀ (b : IBox) (at' : Bool) (nx ny i j : Nat), i < nx → j < ny →
+    B (.poly [shapelyBoxRing b]) at' nx ny i j = covered b i j
+
+/-- a point with integer coordinates burns exactly the cell of that index (none outside the raster) -/
+def PointRule (B : Burner) : Prop :=
+  ∀ (p : ICell) (at' : Bool) (nx ny i j : Nat), i < nx → j < ny →
+    B (.point p) at' nx ny i j = (decide (i = p.1) && decide (j = p.2))
+
+/-- without `all_touched` a polygon burns a cell whose centre is off its boundary iff the centre
+    is inside (even–odd over all rings) -/
+def CentreRule (B : Burner) (rings : List (List ICell)) (nx ny : Nat) : Prop :=
+  ∀ i j, i < nx → j < ny → onBoundary (ratRings rings) (centre i j) = false →
+    B (.poly rings) false nx ny i j = insideRings (ratRings rings) (centre i j)
+
+/-- `all_touched` only adds cells for this shape -/
+def TouchedSuperset (B : Burner) (s : IShape) (nx ny : Nat) : Prop :=
+  ∀ i j, i < nx → j < ny → B s false nx ny i j = true → B s true nx ny i j = true
+
+/-- a rasteriser satisfying the box and point rules (non-vacuity of the contracts) -/
+def refBurner : Burner := fun s _ _ _ i j =>
+  match s with
+  | .poly [[(x1, y0), (_, y1), (x0, _), _, _]] => covered ⟨x0, y0, x1, y1, 0⟩ i j
+  | .point p => decide (i = p.1) && decide (j = p.2)
+  | _ => false
+
+theorem refBurner_boxRule : BoxRule refBurner := by
+  intro b at' nx ny i j _ _
+  simp [refBurner, shapelyBoxRing, covered]
+
+theorem refBurner_pointRule : PointRule refBurner := by
+  intro p at' nx ny i j _ _
+  simp [refBurner]
 
 /-! ### bin lookup with clamping on a sorted axis -/
 
@@ -149,6 +297,84 @@ theorem binOf_le_iff (coords : List Rat) (v : Rat) (hs : Sorted coords) (hne : c
       · constructor
         · intro _; grind
         · intro _; omega
+
+
+/-! ### the general model on box-like geometries; covered cells in terms of coordinates -/
+
+theorem covered_iff (b : IBox) (i j : Nat) :
+    covered b i j = true ↔ (b.ix0 ≤ i ∧ i < b.ix1) ∧ (b.iy0 ≤ j ∧ j < b.iy1) := by
+  simp only [covered, decide_eq_true_eq, natCast_le_add_half, add_half_le_natCast]
+  constructor <;> intro h <;> grind
+
+theorem foldl_box_masks (B : Burner) (hB : BoxRule B) (t : Template) (at' : Bool) :
+    ∀ (geoms : List RGeom) (vs : List Rat) (g : Grid), Shaped g t.time.length t.freq.length →
+      (List.zip ((geoms.map RGeom.toGeom).map (fun g => B (image t g) at' t.time.length t.freq.length)) vs).foldl
+          (fun g p => burnMask p.1 p.2 g) g
+        = (List.zipWith (toIBox t) geoms vs).foldl burn g := by
+  intro geoms
+  induction geoms with
+  | nil => intro vs g _; simp
+  | cons a as ih =>
+    intro vs g hg
+    cases vs with
+    | nil => simp
+    | cons v vs =>
+      simp only [List.map_cons, List.zip_cons_cons, List.zipWith_cons_cons, List.foldl_cons]
+      have hstep : burnMask (B (image t a.toGeom) at' t.time.length t.freq.length) v g = burn g (toIBox t a v) := by
+        have hv : (toIBox t a v).val = v := by cases a <;> rfl
+        rw [burn_eq_burnMask, hv]
+        apply burnMask_congr g _ _ v _ _ hg
+        intro i j hi hj
+        rw [image_toGeom t a v]
+        exact hB _ _ _ _ _ _ hi hj
+      rw [hstep]
+      apply ih
+      rw [burn_eq_burnMask]
+      exact burnMask_shaped _ _ _ _ _ hg
+
+
+/-- bin `i` of an axis is covered by the span from `s` to `e`, in terms of the coordinates: its
+    right edge `coords[i+1]` lies in `(s, e]`; the last bin, which has no right edge, iff
+    `s ≤ last < e` -/
+def spanCovers (coords : List Rat) (s e : Rat) (i : Nat) : Bool :=
+  match coords[i + 1]? with
+  | some c => decide (s < c ∧ c ≤ e)
+  | none =>
+    match coords.getLast? with
+    | some c => decide (s ≤ c ∧ c < e)
+    | none => false
+
+def RGeom.timeSpan : RGeom → Rat × Rat
+  | .box s _ e _ => (s, e)
+  | .interval s e => (s, e)
+
+def RGeom.freqSpan : RGeom → Rat × Rat
+  | .box _ l _ h => (l, h)
+  | .interval _ _ => (0, MAXF)
+
+/-- the cell `(i, j)` is covered by a box-like geometry, in terms of the template's coordinates -/
+def coversCell (t : Template) (g : RGeom) (i j : Nat) : Bool :=
+  spanCovers t.time g.timeSpan.1 g.timeSpan.2 i && spanCovers t.freq g.freqSpan.1 g.freqSpan.2 j
+
+theorem spanCovers_iff (coords : List Rat) (s e : Rat) (hs : Sorted coords) (hne : coords ≠ [])
+    (i : Nat) (hi : i < coords.length) :
+    spanCovers coords s e i = true ↔ (binOf coords s ≤ i ∧ i < binOf coords e) := by
+  have h1 := binOf_le_iff coords s hs hne i hi
+  have h2 := binOf_le_iff coords e hs hne i hi
+  have h3 : i < binOf coords e ↔ ¬ binOf coords e ≤ i := by omega
+  rw [h1, h3, h2]
+  unfold spanCovers
+  by_cases h : i + 1 < coords.length
+  · simp [h, Rat.not_lt]
+  · simp [h, List.getLast?_eq_some_getLast hne, Rat.not_le]
+
+theorem covered_toIBox (t : Template) (hst : Sorted t.time) (hsf : Sorted t.freq) (hnt : t.time ≠ [])
+    (hnf : t.freq ≠ []) (g : RGeom) (v : Rat) (i j : Nat) (hi : i < t.time.length) (hj : j < t.freq.length) :
+    covered (toIBox t g v) i j = coversCell t g i j := by
+  rw [Bool.eq_iff_iff, covered_iff]
+  simp only [coversCell, Bool.and_eq_true, spanCovers_iff _ _ _ hst hnt i hi, spanCovers_iff _ _ _ hsf hnf j hj]
+  cases g <;> rfl
+
 
 /-! ### ray casting on the edges of an index-space box -/
 
